@@ -43,9 +43,12 @@ Proof.
 Qed.
 Print Assumptions C07_frame_except_known.
 
-(** The changed fields have the prescribed values: the pointer advanced by at most one hop
+(** The changed fields are confined to the prescribed values: the pointer advanced by at most one hop
     (two when this router both crosses over and is the egress router) with CurrINF following
-    it, and a changed SegID is the old one xor the first two MAC bytes of a traversed hop field. *)
+    it, and a SegID is either the old one or the old one xor the first two MAC bytes of a traversed
+    hop field.  This is a frame statement: WHEN a SegID must change is not part of it (a router that
+    skipped an update would satisfy it); that is decided by the model = implementation comparison of
+    every case and, end to end, by C02/C22 (a skipped update breaks the next MAC verification). *)
 Theorem C07_exact : forall mac c now ing p e out d,
   process (total mac) c now ing p = Forward e out d -> exact_ok p out = true.
 Proof.
